@@ -2,6 +2,7 @@ import OmplModel.Proofs.SpaceBounds
 import OmplModel.Proofs.SpaceBoundsValid
 import OmplModel.Proofs.SpaceBoundsSamplers
 import OmplModel.Proofs.SpaceBoundsSubspace
+import OmplModel.Proofs.SpaceBoundsShipped
 /-!
 C08 — bound enforcement and every sampler keep states inside the space.
 Property theorems only (helper lemmas: `Proofs/SpaceBounds*.lean`).  `[EX]` = exact real arithmetic
@@ -583,6 +584,62 @@ theorem uniformInt_without_clamp_exceeds :
     rw [hv]
     have : ⌊(1073741825 : ℝ)⌋ = 1073741825 := by rw [Int.floor_eq_iff]; constructor <;> norm_num
     rw [this]; norm_num
+
+/-! ### shipped samplers that no space allocates, and `RNG::halfNormal*` `[EX]` -/
+
+/-- [EX] `HaltonSequence1D::sample()` as coded lies in `[0, 1)` for every base `≥ 2` and every index (loop invariant
+`r + f ≤ 1`, `f > 0`); hence the SO(2), R^n and SE(2) DeterministicStateSamplers over Halton sequences — and over any
+sequence with values in `[0, 1)` (SO(2)) resp. `[0, 1]` (R^n) — produce in-bounds states. -/
+theorem deterministic_sampler_inbounds :
+    (∀ (b i : Nat), 2 ≤ b → 0 ≤ (halton1D b i : ℝ) ∧ (halton1D b i : ℝ) < 1) ∧
+    (∀ s : ℝ, 0 ≤ s → s < 1 → so2Sat (detSO2 s) = true) ∧
+    (∀ lo hi xs : List ℝ, rvOk lo hi → unitList xs → rvSat lo hi (detRv lo hi xs) = true) :=
+  ⟨halton1D_mem, fun _ h0 h1 => detSO2_sat h0 h1, detRv_sat⟩
+
+/-- [EX] boundary class: the sequence value 1 (possible in a user's PrecomputedSequence, never produced by Halton) is mapped by
+SO2DeterministicStateSampler to `+π`, which is outside `[-π, π)`; R^n maps it to `high`, in bounds.  (Observation, not
+recorded as a finding: the contract of DeterministicSequence does not say whether 1 is a legal value.) -/
+theorem deterministic_so2_value_one_out : so2Sat (detSO2 (1 : ℝ)) = false := by
+  have : detSO2 (1 : ℝ) = Real.pi := by simp only [detSO2, pi_val, Num.ofNat, Nat.cast_ofNat]; ring
+  rw [this]
+  cases h : so2Sat Real.pi
+  · rfl
+  · rw [so2Sat_iff] at h; exact absurd h.2 (lt_irrefl _)
+
+/-- [EX] `RNG::halfNormalReal` is in `[r_min, r_max]` for every Gaussian draw and every focus, `halfNormalInt` in
+`[r_min, r_max]` (the model's `Int` does not overflow: finding F167 is the `(int)` cast of 2³¹ for `r_max = INT_MAX`). -/
+theorem halfNormal_in_range :
+    (∀ (rmin rmax : ℝ), rmin ≤ rmax → ∀ focus g : ℝ,
+      rmin ≤ halfNormalReal rmin rmax focus g ∧ halfNormalReal rmin rmax focus g ≤ rmax) ∧
+    (∀ (rmin rmax : Int), rmin ≤ rmax → ∀ focus g : ℝ,
+      rmin ≤ halfNormalInt rmin rmax focus g ∧ halfNormalInt rmin rmax focus g ≤ rmax) :=
+  ⟨fun _ _ h f g => halfNormalReal_mem h f g, fun _ _ h f g => halfNormalInt_mem h f g⟩
+
+/-- [EX] PrecomputedStateSampler::sampleUniformNear on R^n: with the stored state and `near` inside the box and a
+NON-NEGATIVE distance the result is inside the box (convexity; `sampleUniform` copies a stored state). -/
+theorem precomputed_near_inbounds (lo hi near s : List ℝ) (hn : rvIn lo hi near) (hs : rvIn lo hi s) (d : ℝ) (hd : 0 ≤ d) :
+    rvSat lo hi (preNearRv near s d) = true :=
+  rvIn_sat lo hi _ (preNearRv_in lo hi near s hn hs hd)
+
+/-- [EX] Finding F166 (unchanged code): `sampleGaussian` passes the SIGNED draw `gaussian(0, σ)` as the distance; for
+`R¹ = [0, 1]`, mean `0`, stored state `1`, `σ = 1/2` and the draw `g = -1` the result is `-1/2`, out of bounds. -/
+theorem precomputed_gaussian_negative_fails :
+    rvIn [0] [1] [0] ∧ rvIn [0] [1] [1] ∧ preGaussRv [0] [1] (1 / 2 : ℝ) (-1) = [-(1 / 2)] ∧
+    rvSat [0] [1] (preGaussRv [0] [1] (1 / 2 : ℝ) (-1)) = false := by
+  have hd : preGaussRv [0] [1] (1 / 2 : ℝ) (-1) = [-(1 / 2)] := by
+    have hs : Real.sqrt ((0 : ℝ) + (0 - 1) * (0 - 1)) = 1 := by norm_num
+    simp only [preGaussRv, preNearRv, gaussian_val, rvDistSq, Num.sqrt, Num.ofNat, Nat.cast_zero, hs]
+    rw [if_pos (by norm_num)]
+    simp only [rvInterp]
+    norm_num
+  refine ⟨by simp [rvIn], by simp [rvIn], hd, ?_⟩
+  rw [hd]
+  have e := eps_val
+  cases h : rvSat [0] [1] [-(1 / 2 : ℝ)]
+  · rfl
+  · simp only [rvSat, Bool.and_true, rvSat1_iff] at h
+    rw [e] at h
+    norm_num at h
 
 /-! ### valid-state samplers `[AF]`
 
